@@ -93,6 +93,20 @@ Definition check_quad_logd_diff (P : qmat_t) (m x0 x1 : list Qc) (dobs : Q) : bo
   let n := length x0 in
   q_close tol9 dobs (this (quad_logk P (qbcast n m) x1 - quad_logk P (qbcast n m) x0)).
 
+(* Gaussian._apply_prec (repair 2cdaac7) as the code computes it: sqrtprec.T @ (sqrtprec @ dev) -- the precision matrix
+   is never formed.  For the sqrtprec parameterisation `sqrtprec` is the user's own parameter (scalar / vector / any
+   matrix with n columns, NOT necessarily symmetric or triangular) and logpdf = -1/2 |sqrtprec (x - mean)|^2 + const.
+   No certificate and no symmetry test enter this part of the model. *)
+Definition apply_prec (n : nat) (R : qmat_t) (dev : list Qc) : list Qc := qmattvec n R (qmatvec R dev).
+Definition sqrtprec_grad (n : nat) (R : qmat_t) (m x : list Qc) : list Qc := qvneg (apply_prec n R (qvsub x m)).
+Definition sqrtprec_logk (R : qmat_t) (m x : list Qc) : Qc := - (half * qnormsq (qmatvec R (qvsub x m))).
+Definition check_gauss_sqrtprec (p : gparam) (m x x1 : list Qc) (g : list Q) (dobs : Q) : bool :=
+  let n := length x in
+  let R := as_matrix n p in
+  let mm := qbcast n m in
+  vec_close tol9 g (sqrtprec_grad n R mm x) &&
+  q_close tol9 dobs (this (sqrtprec_logk R mm x1 - sqrtprec_logk R mm x)).
+
 (* ------------------------------------------------------------------------------------------
    GMRF: gradient -(prec * P_op) (x - mean), log-kernel -(prec/2) (x-mean)^T P_op (x-mean);
    P_op is the structure matrix the object holds, D its difference operator (P_op = D^T D) *)
